@@ -50,7 +50,7 @@ def plan_copy(w: World, op: dict) -> Plan:
     uidgen = UidGen(op["id"])
     # copies are created with the class of the source tree (no id hook, no
     # attribute forwarding)
-    flavour = {"hook": "plain", "fwd": "plain"}.get(smt.flavour, smt.flavour)
+    flavour = {"hook": "plain", "fwd": "plain", "thook": "typed"}.get(smt.flavour, smt.flavour)
     res_model = MTree(flavour)
     trigger = "copy/" + ("tree" if is_tree else "node")
 
